@@ -22,7 +22,7 @@ fn tables() -> Tables<'static> {
 }
 
 fn spec_index(i: specs::SpecInfo) -> usize {
-    ((((((i.fill_align as usize) * 2 + i.plus as usize) * 2 + i.alt as usize) * 2 + i.zero as usize) * 2
+    ((((((i.fill_align as usize) * 3 + i.sign as usize) * 2 + i.alt as usize) * 2 + i.zero as usize) * 2
         + i.width as usize)
         * 2
         + i.prec as usize)
@@ -36,12 +36,15 @@ fn simpler_specs(idx: usize) -> Vec<usize> {
     let mut push = |j: specs::SpecInfo| out.push(spec_index(j));
     if i.fill_align != 0 {
         push(specs::SpecInfo { fill_align: 0, ..i });
-        if i.fill_align > 3 {
+        if i.fill_align > 6 {
             push(specs::SpecInfo { fill_align: i.fill_align - 3, ..i });
         }
+        if i.fill_align > 3 {
+            push(specs::SpecInfo { fill_align: (i.fill_align - 1) % 3 + 1, ..i });
+        }
     }
-    if i.plus {
-        push(specs::SpecInfo { plus: false, ..i });
+    if i.sign != 0 {
+        push(specs::SpecInfo { plus: false, sign: 0, ..i });
     }
     if i.zero {
         push(specs::SpecInfo { zero: false, ..i });
@@ -145,7 +148,7 @@ fn account(s: &mut Stats, index: u64, case: &Case, j: &Judged) {
     let info = specs::SPEC_INFO[case.spec_idx];
     s.pretty += info.alt as u64;
     s.hex_spec += (info.hex != 0) as u64;
-    s.nondefault_spec += (info.width || info.prec || info.fill_align != 0 || info.plus || info.zero || info.hex != 0) as u64;
+    s.nondefault_spec += (info.width || info.prec || info.fill_align != 0 || info.sign != 0 || info.zero || info.hex != 0) as u64;
     s.ctx_nested += (case.ctx != fmtsim::case::Ctx::Bare) as u64;
     match case.sink {
         SinkFault::None => {}
